@@ -11,8 +11,8 @@ PROPS["C03"] = dict(
     rule="A case = (processor configuration, thread programs, exporter behaviour, schedule).",
     assumptions=SCHED_ASSUMPTIONS + [SC_NOTE],
     runs=[
-        run("bsp", "c03_sched", "bsp_sched", "rc", dict(procs=6, cases=12000), dict(procs=10, cases=250000), asan_extra=SCHED_ASAN),
-        run("blp", "c03_sched", "blp_sched", "rc", dict(procs=6, cases=12000), dict(procs=6, cases=250000), asan_extra=SCHED_ASAN),
+        run("bsp", "c03_sched", "bsp_sched", "rc", dict(procs=6, cases=30000), dict(procs=10, cases=250000), asan_extra=SCHED_ASAN),
+        run("blp", "c03_sched", "blp_sched", "rc", dict(procs=6, cases=30000), dict(procs=6, cases=250000), asan_extra=SCHED_ASAN),
         run("bsp-threads-tsan", "c03_thr_tsan", "bsp_threads", "rc", dict(procs=1, cases=150), dict(procs=3, cases=3000), deterministic=False, replay_bin="c03_thr_tsan"),
         run("blp-threads-tsan", "c03_thr_tsan", "blp_threads", "rc", dict(procs=1, cases=150), dict(procs=3, cases=3000), deterministic=False, replay_bin="c03_thr_tsan"),
         run("bsp-threads", "c03_thr", "bsp_threads", "rc", dict(procs=1, cases=150), dict(procs=3, cases=3000), deterministic=False),
